@@ -56,6 +56,8 @@ EXPECT = [
     ('do not report a bundle as forwarded when forwarding it failed', ['C19']),
     ('reject a final XFER_ACK for a transfer whose last segment has not been sent', ['C17']),
     ('keep the primary block of a received bundle when it is sent as fragments', ['C05']),
+    ('check block CRCs over the octets that were received', ['C08']),
+    ('close a terminating TCPCL session after its last queued transfer was cancelled', ['C09']),
     ('restart the BTP-U receive timeout', ['C20']),
     ('send BTP-U frames on the listening socket', ['C20']),
 ]
